@@ -345,79 +345,109 @@ Fixpoint grun (lk : bool) (st : state) (evs : list event) : option state :=
   end.
 
 (* ---------- the listener: client number = file descriptor ----------
-   runConnection(conn, n):  recvChan := receiver.NewSink(addr, n); defer recvChan.Close();
-     connAborter := launchConnectionCloser(conn)   -- goroutine: wait(stopRequest | abort); conn.Close()
-     read loop: Accept / Flush(=Accept of the buffer + Tick) ...
-     on a read error: connAborter.Signal() (or the stop request already closed the connection)
-     recvChan.Flush()            -- final Accept + Tick
-     (deferred) recvChan.Close()
-   The kernel hands out a descriptor number only while no open descriptor has it; the number becomes
-   free again at conn.Close(), which the closer goroutine executes concurrently with the final Flush
-   and the deferred Close of the connection goroutine. *)
-Inductive lphase := LFresh | LRunning | LAborting | LFdReleased.
+   tcplinelistener.go.  run(): AcceptTCP; (lf) if the stop request is already signaled the connection is
+   closed at once; else go runConnection(conn, n) with n = descriptor number.
+   runConnection(conn, n):
+     recvChan := receiver.NewSink(addr, n)
+     connAborter := launchConnectionCloser(conn)     -- goroutine: wait(stopRequest | connAborter); conn.Close()
+     read loop: Accept / Flush (= Accept of the buffer + Tick) ...
+     a read error ends the loop (peer closed, or the stop request made the closer goroutine close the connection)
+     recvChan.Flush()                                -- final Accept + Tick
+     deferred: recvChan.Close(); connAborter.Signal()
+   The kernel hands out a descriptor number only while no open descriptor has it; the number becomes free
+   again at conn.Close().
+
+   The flag [lf] selects the code version of the listener:
+     lf = true   current code (after "fix: tcpLineListener keeps the connection open until its sink is closed ..."):
+                 connAborter is signaled after the sink has been closed; no connection is served once the stop
+                 request is signaled
+     lf = false  the original code: connAborter.Signal() right at the read error, i.e. conn.Close() runs
+                 concurrently with the final Flush and the deferred sink Close; connections accepted during a
+                 stop are served *)
+Record lthread := mkLT {
+  lt_started : bool;     (* runConnection is running (or has run) for this goroutine *)
+  lt_left : bool;        (* it has left its read loop *)
+  lt_fd : bool           (* its connection still holds the descriptor *)
+}.
 
 Record lstate := mkL {
   l_st : state;
   l_fd : list bool;          (* descriptor number in use *)
-  l_ph : list lphase         (* per connection goroutine *)
+  l_th : list lthread;       (* per connection goroutine *)
+  l_stop : bool              (* stopRequest signaled *)
 }.
 
 Inductive levent :=
 | LConnOpen (t n : nat)   (* AcceptTCP returned a connection with descriptor n; goroutine t starts and calls NewSink *)
-| LAbort (t : nat)        (* read error -> connAborter.Signal(), or the stop request is seen by the closer goroutine *)
-| LFdClosed (t : nat)     (* the closer goroutine executes conn.Close(): the descriptor number is free again *)
+| LStop                   (* the stop request is signaled *)
+| LAbort (t : nat)        (* goroutine t leaves its read loop (read error) *)
+| LFdClosed (t : nat)     (* the closer goroutine of t executes conn.Close(): the descriptor number is free again *)
 | LApi (e : event).       (* any other step of reloadable.go; ECloseBegin t only after LAbort t *)
 
-Definition lstep (lk : bool) (ls : lstate) (e : levent) : option lstate :=
+Definition lthr (ls : lstate) (t : nat) : lthread := nth t (l_th ls) (mkLT false false false).
+
+Definition lstep (lf lk : bool) (ls : lstate) (e : levent) : option lstate :=
   match e with
   | LConnOpen t n =>
-    match nth_error (l_fd ls) n, nth_error (l_ph ls) t with
-    | Some false, Some LFresh =>
-      match step lk (l_st ls) (ENewBegin t n) with
-      | Some st' => Some (mkL st' (upd (l_fd ls) n true) (upd (l_ph ls) t LRunning))
-      | None => None
-      end
+    match nth_error (l_fd ls) n, nth_error (l_th ls) t with
+    | Some false, Some (mkLT false _ _) =>
+      if lf && l_stop ls then None
+      else
+        match step lk (l_st ls) (ENewBegin t n) with
+        | Some st' => Some (mkL st' (upd (l_fd ls) n true) (upd (l_th ls) t (mkLT true false true)) (l_stop ls))
+        | None => None
+        end
     | _, _ => None
     end
+  | LStop =>
+    if l_stop ls then None else Some (mkL (l_st ls) (l_fd ls) (l_th ls) true)
   | LAbort t =>
-    match nth_error (l_ph ls) t, get_thr (l_st ls) t with
-    | Some LRunning, Some (mkThr _ HOpen _) => Some (mkL (l_st ls) (l_fd ls) (upd (l_ph ls) t LAborting))
+    match nth_error (l_th ls) t, get_thr (l_st ls) t with
+    | Some (mkLT true false fd), Some (mkThr _ HOpen _) =>
+      Some (mkL (l_st ls) (l_fd ls) (upd (l_th ls) t (mkLT true true fd)) (l_stop ls))
     | _, _ => None
     end
   | LFdClosed t =>
-    match nth_error (l_ph ls) t, get_thr (l_st ls) t with
-    | Some LAborting, Some c =>
-      Some (mkL (l_st ls) (upd (l_fd ls) (ct_num c) false) (upd (l_ph ls) t LFdReleased))
+    match nth_error (l_th ls) t, get_thr (l_st ls) t with
+    | Some (mkLT true lft true), Some c =>
+      let launched := match ct_h c with HNone => false | _ => true end in   (* the closer goroutine exists *)
+      let closed := match ct_h c, ct_pc c with HClosed, PIdle => true | _, _ => false end in
+      let enabled := if lf then closed || (l_stop ls && launched)
+                     else launched && (lft || l_stop ls) in
+      if enabled then
+        Some (mkL (l_st ls) (upd (l_fd ls) (ct_num c) false) (upd (l_th ls) t (mkLT true lft false)) (l_stop ls))
+      else None
     | _, _ => None
     end
   | LApi e =>
     let allowed :=
       match e with
       | ENewBegin _ _ => false
-      | ECloseBegin t => match nth_error (l_ph ls) t with Some LAborting | Some LFdReleased => true | _ => false end
+      | ECloseBegin t => lt_left (lthr ls t)
       | _ => true
       end in
     if allowed then
       match step lk (l_st ls) e with
-      | Some st' => Some (mkL st' (l_fd ls) (l_ph ls))
+      | Some st' => Some (mkL st' (l_fd ls) (l_th ls) (l_stop ls))
       | None => None
       end
     else None
   end.
 
 Definition linit (nthr maxn : nat) : lstate :=
-  mkL (init nthr maxn) (repeat false maxn) (repeat LFresh nthr).
+  mkL (init nthr maxn) (repeat false maxn) (repeat (mkLT false false false) nthr) false.
 
-Fixpoint lrun (lk : bool) (ls : lstate) (evs : list levent) : option lstate :=
+Fixpoint lrun (lf lk : bool) (ls : lstate) (evs : list levent) : option lstate :=
   match evs with
   | [] => Some ls
-  | e :: evs' => match lstep lk ls e with Some ls' => lrun lk ls' evs' | None => None end
+  | e :: evs' => match lstep lf lk ls e with Some ls' => lrun lf lk ls' evs' | None => None end
   end.
 
-(* the discipline that would make the listener respect the assumption: the descriptor is only
-   released after the connection's sink has been closed *)
-Definition close_before_fd (ls : lstate) (e : levent) : bool :=
+(* the events of reloadable.go contained in a run of the listener *)
+Definition api_event (e : levent) : list event :=
   match e with
-  | LFdClosed t => match get_thr (l_st ls) t with Some (mkThr _ HClosed _) => true | _ => false end
-  | _ => true
+  | LConnOpen t n => [ENewBegin t n]
+  | LApi e => [e]
+  | _ => []
   end.
+Definition api_events (evs : list levent) : list event := flat_map api_event evs.
